@@ -256,3 +256,56 @@ def r3_4(ctx):
         ty = f.struct_field_ty(GT, fld)
         ctx.ob("GameTime.%s:signed" % fld, ty in signed and ty not in ("i8", "i16"), "src/time_control.rs",
                "field type `%s`; GUIs send negative and large clock values, a type that rejects them makes `go` panic" % ty)
+
+
+def r9_6(ctx):
+    """go token table: the value after `wtime|btime|winc|binc|movestogo` is stored in the field of
+    the same name (and nowhere else); every field starts at 0 / None for each go."""
+    from wa.cond import dominating_facts
+    f = ctx.facts
+    b = f.body(PGC)
+    ctx.note_fn(PGC)
+    ex = Exprs(b)
+    fields = f.struct_fields(GT)
+    got = {}
+    gts = [l for l in range(len(b.locals)) if b.local_ty(l) == GT]
+    for loc, st in b.iter_stmts():
+        if st["k"] != "assign":
+            continue
+        p = st["place"]
+        if p["local"] in gts and p["proj"] and p["proj"][0]["k"] == "field":
+            fld = p["proj"][0]["name"]
+            names = []
+            for d, vals, excl, s, tg in dominating_facts(b, ex, loc[0]):
+                truth = (vals is None and excl == [0]) or vals == [1]
+                d0 = strip_refs(d)
+                if truth and d0[0] == "bin" and d0[1] == "Eq":
+                    for k in (strip_refs(d0[2]), strip_refs(d0[3])):
+                        if k[0] == "str":
+                            names.append(k[1])
+            # the stored value is parsed from the token after the name
+            e = ex.rvalue(st["rv"], loc)
+            parsed = False
+            from wa.linear import linear
+            for x in subexprs(e):
+                if x[0] == "call" and x[1].endswith("<impl str>::parse"):
+                    for y in subexprs(x[2][0]):
+                        idx = y[2] if y[0] == "index" else (y[2][1] if y[0] == "call" and y[1].endswith("::index") and len(y[2]) == 2 else None)
+                        if idx is not None:
+                            li = linear(idx)
+                            if li is not None and li[1] == 1 and list(li[0].values()) == [1]:
+                                parsed = True
+            got.setdefault(fld, []).append((names, parsed, loc))
+    for fld in ("wtime", "btime", "winc", "binc", "movestogo"):
+        lst = got.get(fld, [])
+        ok = len(lst) == 1 and lst[0][0] == [fld] and lst[0][1]
+        ctx.ob("parse_go_command:%s" % fld, ok, b.where(lst[0][2]) if lst else b.file,
+               "GameTime.%s is assigned under the token(s) %s from the parsed next token: %s" % (fld, [x[0] for x in lst], [x[1] for x in lst]))
+    # initial values: the struct literal is all zero / None
+    init_ok = False
+    for loc, st in b.iter_stmts():
+        if st["k"] == "assign" and st["rv"]["k"] == "aggregate" and st["rv"].get("adt") == GT:
+            e = ex.rvalue(st["rv"], loc)
+            vals = dict(zip(fields, e[3]))
+            init_ok = all(vals[k] == ("const", 0) for k in ("wtime", "btime", "winc", "binc")) and vals["movestogo"][0] == "agg" and vals["movestogo"][2] == "None"
+    ctx.ob("parse_go_command:fresh-clock-per-go", init_ok, b.file, "every go starts from wtime = btime = winc = binc = 0 and movestogo = None")
